@@ -338,6 +338,9 @@ func RunCheck(o CheckOptions) int {
 		if ex.TimedOut {
 			rep.Inconclusive = append(rep.Inconclusive, h.Name()+": exploration deadline hit; remaining paths not explored")
 		}
+		if ex.ViolCapHit {
+			rep.Inconclusive = append(rep.Inconclusive, h.Name()+": exploration stopped after 40 candidate counterexamples; remaining paths not explored")
+		}
 		if ex.PathCapHit {
 			rep.Inconclusive = append(rep.Inconclusive, h.Name()+": path cap hit; remaining paths not explored")
 		}
